@@ -1,4 +1,4 @@
-//! `fbharness --bombs <out>`: inputs of `join_all` / `try_join_all` whose destructor panics.
+//! `fbharness --bombs <out>`: inputs of `join_all` / `try_join_all` whose destructor (or `poll`) panics.
 //!
 //! A panic that unwinds out of the crate is outside the Gallina model (an operation of the model
 //! always returns), so these scenarios have their own oracle instead of a model trace: outputs
@@ -73,6 +73,8 @@ struct BFut {
     ready_after: usize,
     polls: usize,
     bomb: bool,
+    /// panics in `poll` (once) instead of in the destructor
+    poll_bomb: bool,
     fail: bool,
     done: bool,
 }
@@ -80,6 +82,11 @@ struct BFut {
 impl BFut {
     fn step(&mut self, cx: &mut Context<'_>) -> bool {
         self.polls += 1;
+        if self.poll_bomb && self.polls > self.ready_after {
+            self.poll_bomb = false;
+            self.ready_after = self.polls; // completes normally if it is ever polled again
+            panic!("poll bomb");
+        }
         if self.polls > self.ready_after {
             self.done = true;
             true
@@ -133,7 +140,7 @@ fn noop_waker() -> Waker {
     unsafe { Waker::from_raw(RawWaker::new(std::ptr::null(), &VT)) }
 }
 
-fn mk(n: usize, bomb_at: usize, order: usize, fail_at: Option<usize>) -> Vec<BFut> {
+fn mk(n: usize, bomb_at: usize, order: usize, fail_at: Option<usize>, in_poll: bool) -> Vec<BFut> {
     (0..n)
         .map(|i| BFut {
             // order 0: input i completes on poll i + 1; order 1: reversed; order 2: all at once
@@ -143,7 +150,8 @@ fn mk(n: usize, bomb_at: usize, order: usize, fail_at: Option<usize>) -> Vec<BFu
                 _ => 0,
             },
             polls: 0,
-            bomb: i == bomb_at,
+            bomb: i == bomb_at && !in_poll,
+            poll_bomb: i == bomb_at && in_poll,
             fail: fail_at == Some(i),
             done: false,
         })
@@ -159,11 +167,11 @@ fn check_vec(v: &[BTok], what: &str) {
 }
 
 /// One scenario; returns the violations seen.
-fn run(try_: bool, n: usize, bomb_at: usize, order: usize, fail_at: Option<usize>, repoll: bool) -> Vec<String> {
+fn run(try_: bool, n: usize, bomb_at: usize, order: usize, fail_at: Option<usize>, repoll: bool, in_poll: bool) -> Vec<String> {
     REG.with(|r| *r.borrow_mut() = Reg::default());
     let waker = noop_waker();
     let mut cx = Context::from_waker(&waker);
-    let futs = mk(n, bomb_at, order, fail_at);
+    let futs = mk(n, bomb_at, order, fail_at, in_poll);
     if try_ {
         let futs: Vec<BTry> = futs.into_iter().map(BTry).collect();
         let mut j = Box::pin(in_crate(move || try_join_all(futs)));
@@ -235,14 +243,15 @@ pub fn run_all(out_path: &str) -> bool {
                         } else {
                             vec![None]
                         };
-                        for fail_at in fails {
+                        for (fail_at, in_poll) in fails.iter().flat_map(|f| [(*f, false), (*f, true)]) {
                             let name = format!(
-                                "{} n={n} bomb={bomb_at} order={order} fail={} repoll={}",
+                                "{} n={n} bomb={bomb_at}{} order={order} fail={} repoll={}",
                                 if try_ { "try_join_all" } else { "join_all" },
+                                if in_poll { "(in poll)" } else { "" },
                                 fail_at.map_or("-".to_string(), |i| i.to_string()),
                                 repoll as u8
                             );
-                            let bad = run(try_, n, bomb_at, order, fail_at, repoll);
+                            let bad = run(try_, n, bomb_at, order, fail_at, repoll, in_poll);
                             count += 1;
                             if bad.is_empty() {
                                 let _ = writeln!(out, "bomb {name} ok");
